@@ -502,7 +502,7 @@ RULES["C05"] = ("replace commands: 4 bodies with captures whose values differ be
 def c05(ctx):
     ctx.technique = "Replacement(m) of spec/Replace.tla + Eval/Exec of spec/Expr.tla evaluated by TLC, replayed into Compile/Run"
     cases = ctx.gen_cases("C05")
-    ctx.replay("C05-with-lists", cases, FIELDS["C05"])
+    ctx.replay("C05-with-lists", cases, FIELDS["C05"], eval_timeout=900 if ctx.tier == "quick" else 2400)
 
 
 def run_sharded_machine(ctx, module, cases, invariants, nshards=None, timeout=900, extra_const=""):
